@@ -341,6 +341,12 @@ def oracle(case):
     return out
 
 
+def sample_view(case):
+    if case.get("fresh"):
+        return dict(case, ops=case["ops"][:4] + [f"... {len(case['ops'])} single ops, each from a fresh init"])
+    return case
+
+
 def nontrivial(case):
     return len(case["text"]) > 0
 
